@@ -248,7 +248,10 @@ def _history(w, h, res):
                                   'parent (worker reaction %s, child got %s)'
                                   % (c.pid, pid, sig, conf['beh'], c.signals and [(round(t - t0, 3), s) for t, s, _ in c.signals]),
                                   worker_exit=None if exit_t is None else round(exit_t - t0, 4))
-                if kills and (exit_t is None or exit_t >= kills[0][0] - EPS):
+                # "the final SIGKILL reaches them too": judged when the worker itself was still alive at the
+                # escalation and was killed by it (a worker that died by itself at the deadline is a zombie
+                # without children by then: tolerated class, like the SIGKILL call to the zombie)
+                if kills and p.cause == 'circus:9':
                     tk = kills[0][0]
                     if c.exit_t is None or c.exit_t > tk:
                         res.obs['children_alive_at_escalation'] += 1
